@@ -37,6 +37,7 @@ type AtomEvent struct {
 }
 
 type atomRecorder struct {
+	gate   func(point string, tid int) // schedule control for the deterministic scenarios
 	mu     sync.Mutex
 	seq    int64
 	events []AtomEvent
@@ -121,6 +122,9 @@ func (r *atomRecorder) hook(point string, obj interface{}) {
 		r.emit(AtomEvent{Ev: "set", Tid: tid, Atom: id, Val: intOf(a.Val)})
 	case "reset.set":
 		r.emit(AtomEvent{Ev: "reset", Tid: tid, Atom: id, Val: intOf(a.Val)})
+	}
+	if g := r.gate; g != nil {
+		g(point, tid)
 	}
 	if atomic.LoadInt32(&atomYield) != 0 && rand.Intn(3) == 0 {
 		runtime.Gosched()
@@ -226,6 +230,9 @@ type atomScenario struct {
 	NAtoms  int
 	Scripts [][]atomOp
 	Style   string // "" (the atoms hold integers) | "map" (they hold {:k n}, updated through the builtin update)
+	// Handoff: thread 2 starts only when thread 1 is at its swap.set point (still holding the write lock) and has
+	// time to queue up for the lock: it is the next writer, before anything thread 1 does after unlocking
+	Handoff bool
 }
 
 func randomAtomScenario(rnd *rand.Rand, maxThreads, maxOps int) atomScenario {
@@ -308,12 +315,30 @@ func runAtomScenario(rec *atomRecorder, sc atomScenario) (hang string, infra err
 	}
 	var wg sync.WaitGroup
 	start := make(chan struct{})
+	second := make(chan struct{})
+	var secondOnce sync.Once
+	rec.gate = nil
+	if sc.Handoff {
+		rec.gate = func(point string, tid int) {
+			if point == "swap.set" && tid == 1 {
+				secondOnce.Do(func() { close(second) })
+				time.Sleep(3 * time.Millisecond) // thread 2 reaches Lock() and waits for it
+			}
+		}
+		defer func() { rec.gate = nil }()
+	}
 	for t := range sc.Scripts {
 		wg.Add(1)
 		go func(t int) {
 			defer wg.Done()
 			rec.tids.Store(goid(), t+1)
 			<-start
+			if sc.Handoff && t == 1 {
+				select {
+				case <-second:
+				case <-time.After(2 * time.Second):
+				}
+			}
 			for i, o := range sc.Scripts[t] {
 				rec.emit(AtomEvent{Ev: "inv", Tid: t + 1, Atom: o.Atom, Op: o.Op, B: o.B, Val: o.V})
 				res, e := lisp.EVAL(ctx, asts[t][i], ns)
@@ -395,6 +420,16 @@ func cmdAtoms(args []string) {
 			}
 			scenarios = append(scenarios, sc)
 		}
+	}
+	// hand-off scenarios: a writer queued for the lock while a swap! is at its commit point
+	for i := 0; i < 6; i++ {
+		sc := atomScenario{NAtoms: 1, Handoff: true, Scripts: [][]atomOp{
+			{{Op: "swapinc", Atom: 1, B: 1, V: 1001}, {Op: "deref", Atom: 1, B: 1}},
+			{{Op: []string{"reset", "swapinc"}[i%2], Atom: 1, B: 1, V: 7}}}}
+		if i >= 4 {
+			sc.Style = "map"
+		}
+		scenarios = append(scenarios, sc)
 	}
 	// hot scenarios: six threads, eight swaps each, all on one atom (a writer is nearly always waiting for the lock)
 	for i := 0; i < 48; i++ {
